@@ -94,6 +94,8 @@ var c11Builtins = []c11Builtin{
 	{"upper", "s1", true, nil}, {"lower", "s1", true, nil}, {"len", "s1", true, nil}, {"float", "i1", true, nil}, {"bool", "i1", true, nil}, {"!", "b1", true, nil}, {"int", "b1", true, nil},
 	{"StrF", "f1", false, function.StrF}, {"StrI", "i1", false, function.StrI}, {"StrB", "b1", false, function.StrB}, {"UpperS", "s1", false, function.UpperS}, {"LenS", "s1", false, function.LenS},
 	{"UpperS", "e1", false, function.UpperS}, {"AbsI", "i1", false, function.AbsI},
+	// the built-ins Apply knows by name (the enum one re-codes the column when values fall together)
+	{"ToUpper", "e1", false, "ToUpper"}, {"ToUpper", "e1", false, "ToUpper"}, {"ToUpper", "s1", false, "ToUpper"}, {"upper", "e1", true, nil},
 }
 
 var c11Names = []string{"root", "slice", "sorted", "filtered", "copied", "sorted+select"}
@@ -111,6 +113,21 @@ func TestC11(t *testing.T) {
 				}
 			}
 			base.Cols[ci].S = s
+		}
+		// now and then the enum columns hold values that differ in case only (operations that fold case then have values
+		// falling together and re-code the column)
+		if rapid.IntRange(0, 3).Draw(t, "casepairs") == 0 {
+			decl := rapid.Permutation([]string{"a", "A", "b", "B", "ab", "Ab", "aB", ""}).Draw(t, "casedecl")[:rapid.IntRange(3, 8).Draw(t, "casedecln")]
+			for _, name := range []string{"e1", "e2"} {
+				ci := base.Find(name)
+				cells := make([]*string, base.N())
+				for r := range cells {
+					if k := rapid.IntRange(-1, len(decl)-1).Draw(t, "casecell"); k >= 0 {
+						cells[r] = hx.Sp(decl[k])
+					}
+				}
+				base.Cols[ci].S, base.Cols[ci].Enum = cells, decl
+			}
 		}
 		n := base.N()
 		a := rapid.IntRange(0, n).Draw(t, "slicea")
@@ -198,7 +215,42 @@ func TestC11(t *testing.T) {
 				mi = 4 // more weight on the member that was itself made by adding a column (its column slice has a history)
 			}
 			tab, mn := tabs[mi], c11Names[mi]
-			switch rapid.IntRange(0, 24).Draw(t, "op") {
+			switch rapid.IntRange(0, 25).Draw(t, "op") {
+			case 25:
+				// a user aggregation that works in place on the slice it is handed (a median by sorting it, a reversal): the
+				// slice is the function's own scratch, whichever rows the group holds - with no key, a bool key or an enum key
+				// the groups of the plain and the sliced member are runs of neighbouring rows
+				key := rapid.SampledFrom([]string{"", "", "b1", "e1"}).Draw(t, "inplacekey")
+				col := rapid.SampledFrom([]string{"f1", "i1", "id", "s1"}).Draw(t, "inplacecol")
+				makers[i] = opMaker{desc: fmt.Sprintf("%s.GroupBy(%q).Aggregate(in-place median/reversal over %s)", mn, key, col), scratch: true, mk: func(f family) func() string {
+					return func() string {
+						var fn interface{}
+						switch col {
+						case "f1":
+							fn = func(v []float64) float64 {
+								sort.Slice(v, func(i, j int) bool { return v[i] < v[j] || v[i] != v[i] && v[j] == v[j] })
+								return v[len(v)/2]
+							}
+						case "s1":
+							fn = func(v []*string) *string {
+								for i, j := 0, len(v)-1; i < j; i, j = i+1, j-1 {
+									v[i], v[j] = v[j], v[i]
+								}
+								return v[0]
+							}
+						default:
+							fn = func(v []int) int {
+								sort.Ints(v)
+								return v[len(v)/2]
+							}
+						}
+						var cols []groupby.ConfigFunc
+						if key != "" {
+							cols = append(cols, groupby.Columns(key))
+						}
+						return multiset(f.members[mi].GroupBy(cols...).Aggregate(qframe.Aggregation{Fn: fn, Column: col, As: "mid"}))
+					}
+				}}
 			case 24:
 				// clauses whose first sub-clause keeps every row: the next one works on the frame's own rows
 				k := rapid.IntRange(-2, 3).Draw(t, "nullandk")
@@ -522,15 +574,23 @@ func TestC11(t *testing.T) {
 		desc := sb.String()
 		_ = os.WriteFile("c11_current_case.txt", []byte(desc), 0o644)
 
+		before := make([]string, len(members))
+		for i := range members {
+			before[i] = snapFrame(famB.members[i]) // the twin: observing the first family here could warm lazy state
+		}
 		solo := make([]string, nops)
 		for i, o := range ops {
 			if perr := hx.Safely(func() { solo[i] = o.solo() }); perr != nil {
 				t.Skip("an operation panics on its own: not C11's business")
 			}
-		}
-		before := make([]string, len(members))
-		for i := range members {
-			before[i] = snapFrame(famB.members[i]) // the twin: observing the first family here could warm lazy state
+			// the reference runs share the twin family: each of them must leave it as it was, or the later ones are no
+			// runs "alone on the same frame" (and a frame that an operation changes cannot be shared at all)
+			for j := range members {
+				if now := snapFrame(famB.members[j]); now != before[j] {
+					t.Fatalf("member %s changed while operation %d (%s) ran alone: frames that change under an operation cannot be shared\nbefore:\n%s\nafter:\n%s\n%s",
+						names[j], i, o.desc, clipS(before[j]), clipS(now), desc)
+				}
+			}
 		}
 		old := runtime.GOMAXPROCS(0)
 		defer runtime.GOMAXPROCS(old)
